@@ -11,6 +11,13 @@ def sz(ctx, quick, thorough):
 
 def run_C01(ctx):
     drive_and_validate(ctx, [{"driver": "C01", "n": sz(ctx, 3200, 160000), "probes": 48}])
+    # component machine behind C01: the scan-beam theorem of Sweep.tla (model-checked) and the implementation's
+    # active edge lists against S1..S5 (advisory: necessary conditions of the design, not the property itself)
+    if ctx.tier == "quick":
+        run_model(ctx, "MC_Sweep", workers=NCPU)
+    else:
+        run_model(ctx, "MC_Sweep", cfg="MC_Sweep_full.cfg", workers=NCPU)
+    drive_and_validate(ctx, [{"driver": "SWEEP", "n": sz(ctx, 800, 40000)}], advisory=True)
 
 
 def run_C02(ctx):
@@ -129,6 +136,11 @@ def run_C18(ctx):
     replay_histories(ctx, None, "replay-sched", chunks=1, histories=['<<"HIST", %s>>' % __import__("json").dumps(free)])
 
 
+def run_SWEEP(ctx):
+    run_model(ctx, "MC_Sweep", workers=16)
+    drive_and_validate(ctx, [{"driver": "SWEEP", "n": sz(ctx, 1600, 60000)}])
+
+
 PROPS = {
     "C01": {"run": run_C01,
             "rule": "seeded generators (9 families) x 4 clip types x 4 fill rules x 4 entry points; an event is non-trivial "
@@ -198,6 +210,8 @@ PROPS = {
                     "goroutines; every schedule is a distinct non-trivial case",
             "level_note": "The data-race clause is observed by the Go race detector (a report is direct evidence from the real "
                           "code); the specification contributes the schedules and the result oracle. Trusted: TLC, Go -race."},
+    "SWEEP": {"run": run_SWEEP, "internal": True,
+              "rule": "component check, not a listed property: scan-beam snapshots of engine executions against Sweep.tla"},
     "C02": {"run": run_C02,
             "rule": "as C01 with preserve-collinear / reverse-solution toggled; non-trivial as C01"},
 }
